@@ -54,6 +54,7 @@ static comp_info Grcinfo;           /* Compression information for each
                                         scheme */
 static uint16 Grrefset   = 0;       /* Ref of image to get next */
 static uint16 Grlastref  = 0;       /* Last ref read/written */
+static uint16 Grreadref  = 0;       /* ref of the group (RIG, or bare RI8/CI8/II8) read last */
 static int    Grreqil[2] = {0, 0};  /* requested lut/image il */
 static struct {                     /* track refs of set vals written before */
     int   lut;                      /* -1: no vals set */
@@ -761,7 +762,8 @@ DFGRIriginfo(int32 file_id)
             aid = Hstartread(file_id, gettag, getref);
         }
         else {
-            aid = Hstartread(file_id, gettag, Grread.data[IMAGE].ref);
+            /* continue after the group read last: a RIG's ref need not be its image's ref */
+            aid = Hstartread(file_id, gettag, Grreadref);
             if ((aid != FAIL) && Hnextread(aid, gettag, getref, DF_CURRENT) == FAIL) {
                 Hendaccess(aid);
                 aid = FAIL;
@@ -832,6 +834,7 @@ DFGRIriginfo(int32 file_id)
     }
 
     Grlastref = newref; /* remember ref read */
+    Grreadref = newref;
 
 done:
     return ret_value;
